@@ -233,6 +233,10 @@ pub fn parse_all(files: &[SrcFile], lang: Lang, cfg: &Cfg, ignored: &[String]) -
 
 /// The whole pipeline; never unwinds.
 pub fn run(files: &[SrcFile], lang: Lang, cfg: &Cfg) -> Outcome {
+    {
+        let srcs: Vec<(&str, &str)> = files.iter().map(|f| (f.path.as_str(), f.source.as_str())).collect();
+        crate::crumb::note(lang.name(), &format!("prefix={:?} package={:?} multi_file={} target_os={:?} mappings={:?}", cfg.prefix, cfg.package, cfg.multi_file, cfg.target_os, cfg.type_mappings), &srcs);
+    }
     let r = catch_unwind(AssertUnwindSafe(|| run_inner(files, lang, cfg)));
     match r {
         Ok(o) => o,
@@ -279,6 +283,10 @@ fn run_inner(files: &[SrcFile], lang: Lang, cfg: &Cfg) -> Outcome {
 
 /// Parse only (language independent part): returns the folded, reconciled data or the failure.
 pub fn parse_only(files: &[SrcFile], cfg: &Cfg) -> Result<BTreeMap<CrateName, ParsedData>, Outcome> {
+    {
+        let srcs: Vec<(&str, &str)> = files.iter().map(|f| (f.path.as_str(), f.source.as_str())).collect();
+        crate::crumb::note("(parse only)", &format!("multi_file={} target_os={:?}", cfg.multi_file, cfg.target_os), &srcs);
+    }
     let r = catch_unwind(AssertUnwindSafe(|| {
         let mut m = parse_all(files, Lang::TypeScript, cfg, &[])?;
         reconcile_aliases(&mut m);
